@@ -175,6 +175,23 @@ pub fn trace(pool: &NamePool, max_frames: usize, max_depth: usize) -> BoxedStrat
                 parent = (Some(t.clone()), fr.clone());
                 levels.push((t, fr));
             }
+            // a wrapper created by `new X(cause)` carries the cause's toString() as its message: the free-text
+            // message of one level then equals the (obfuscated) throwable of the next
+            let mut exc = exc;
+            let n_levels = levels.len();
+            for i in (0..n_levels).rev() {
+                let child_text = levels[i].0.print();
+                let child_class = levels[i].0.class.clone();
+                let d = (levels[i].1.len() * 7 + child_class.len() * 3 + i) % 10;
+                let wrapper: Option<&mut ThrowableAst> = if i == 0 { exc.as_mut() } else { Some(&mut levels[i - 1].0) };
+                if let Some(w) = wrapper {
+                    match d {
+                        0 => w.message = Some(child_text),
+                        1 => w.message = Some(child_class),
+                        _ => {}
+                    }
+                }
+            }
             let mut cause: Option<Box<TraceAst>> = None;
             for (t, fr) in levels.into_iter().rev() {
                 cause = Some(Box::new(TraceAst { exception: Some(t), frames: fr, cause }));
@@ -254,7 +271,30 @@ pub fn text_lines(pool: &NamePool, max: usize) -> BoxedStrategy<Vec<TextLine>> {
         2 => (select(INVISIBLE), throwable(pool), any::<bool>()).prop_map(|(p, t, c)| TextLine::Invisible(p.to_string(), t, c)),
         3 => (select(OTHER_PREFIXES), throwable(pool)).prop_map(|(p, t)| TextLine::Prefixed(p.to_string(), t)),
     ];
-    vec(line, 0..=max).boxed()
+    // lines of a text are not independent either: the same frame repeated (recursion), and repeated in another
+    // spelling (indent, trailing blanks, a sign or leading zero in the line number) that parses to the same frame
+    (vec((line, 0u8..100), 0..=max))
+        .prop_map(|ls| {
+            let mut out = Vec::new();
+            for (l, dice) in ls {
+                out.push(l.clone());
+                if let TextLine::Frame(indent, f) = &l {
+                    let other_indent = INDENTS[(dice as usize) % INDENTS.len()].to_string();
+                    match dice {
+                        0..=5 => out.push(l.clone()),
+                        6..=11 => out.push(TextLine::Frame(other_indent, f.clone())),
+                        12..=15 => out.push(TextLine::Raw(format!("{indent}{} ", f.print()))),
+                        16..=18 => out.push(TextLine::Raw(format!("{other_indent}{}\t", f.print()))),
+                        19..=21 => out.push(TextLine::Raw(format!("{indent}at {}.{}({}:+{})", f.class, f.method, f.file.as_deref().unwrap_or("<unknown>"), f.line))),
+                        22..=24 => out.push(TextLine::Raw(format!("{indent}at {}.{}({}:0{})", f.class, f.method, f.file.as_deref().unwrap_or("<unknown>"), f.line))),
+                        25..=26 => out.push(TextLine::Raw(format!("{indent}at  {}.{}({}:{})", f.class, f.method, f.file.as_deref().unwrap_or("<unknown>"), f.line))),
+                        _ => {}
+                    }
+                }
+            }
+            out
+        })
+        .boxed()
 }
 
 #[derive(Clone, Debug, serde::Serialize, serde::Deserialize, PartialEq, Eq)]
